@@ -4,7 +4,7 @@ import ast
 from .. import poly
 from ..poly import Rat, key_equiv, key_str
 from ..evaluator import analyse
-from ..procmodel import (make_config, permeance_summary, process_functions, evaluate, PM, param_of_type, is_non_ideal)
+from ..procmodel import (split_models, make_config, permeance_summary, process_functions, evaluate, PM, param_of_type, is_non_ideal)
 from ..symeval import val_key
 from ..values import *
 from ..repo import AnalysisError, FuncInfo, ClassInfo, parse_type
@@ -180,7 +180,7 @@ def run(ck):
     # --- process models ---------------------------------------------------------------------------------------------
     for func in process_functions(repo):
         ck.analysed_function(func)
-        models = [m for m in evaluate(repo, func, ck.tier) if isinstance(m, PM)]
+        models = split_models(ck, 'F0', func, evaluate(repo, func, ck.tier))
         ck.analysed["paths"] += len(models)
         for pm in models:
             sck = ck.scoped(pm.path_label)
